@@ -327,9 +327,13 @@ func (ex *Exec) spawn(fv Value, args []Value, site ssa.Instruction) {
 	})
 }
 
-// runGoroutines runs every spawned goroutine to completion or until it blocks
-// (a blocked goroutine is parked forever). Newly spawned ones run too.
+// runGoroutines runs every spawned goroutine until it completes or blocks. A blocked
+// goroutine is parked and, at the next call, restarted from its beginning: this is
+// exact for the service loops in reach (`for { select { ... } }` blocks only at the loop
+// head and carries no state across iterations) and is stated as an assumption.
 func (ex *Exec) runGoroutines() {
+	ex.gos = append(ex.parked, ex.gos...)
+	ex.parked = nil
 	for len(ex.gos) > 0 {
 		g := ex.gos[0]
 		ex.gos = ex.gos[1:]
@@ -341,6 +345,7 @@ func (ex *Exec) runGoroutines() {
 				ex.depth = sdepth
 				if r := recover(); r != nil {
 					if _, ok := r.(goBlocked); ok {
+						ex.parked = append(ex.parked, g)
 						return
 					}
 					if gp, ok := r.(*goPanic); ok {
